@@ -11,6 +11,7 @@ import (
 	"github.com/prometheus/alertmanager/dispatch"
 
 	"verifharness/vh"
+	"verifharness/vhm"
 )
 
 // keyCase: a configuration whose routes use every way of writing matchers (deprecated `match:` / `match_re:` maps
@@ -20,6 +21,162 @@ import (
 type keyCase struct {
 	YAML  string `json:"yaml"`
 	Loads int    `json:"loads"`
+	// Routes: the matchers of every route as WRITTEN (structured form of the same text), in walk order with the
+	// position of the parent; present for the cases of genKeyCaseRef. From it the harness computes the reference route
+	// keys on its own (refRouteKeys), without calling anything of the code under test.
+	Routes []keyRoute `json:"routes,omitempty"`
+}
+
+type keyMatcher struct {
+	Name string `json:"n"`
+	Op   string `json:"op"` // = != =~ !~
+	Val  string `json:"v"`
+}
+
+type keyRoute struct {
+	Parent   int          `json:"parent"` // index into Routes; -1 = child of the root
+	Match    []keyMatcher `json:"match,omitempty"`    // deprecated match: map (all "=")
+	MatchRE  []keyMatcher `json:"match_re,omitempty"` // deprecated match_re: map (all "=~", value as written)
+	Matchers []keyMatcher `json:"matchers,omitempty"` // matchers: list, in written order
+}
+
+// ---- the reference: the route key as the property states it, "a pure function of the matchers along the route's
+// path": per route the matchers in the canonical order (label name, then value, then kind = != =~ !~), printed as
+// name<op>"value", in braces, the routes of the path joined by "/". Written here from the documentation of the key's
+// format; nothing of pkg/labels or dispatch is called. ----
+
+var opRank = map[string]int{"=": 0, "!=": 1, "=~": 2, "!~": 3}
+
+func refMatchersOf(rt keyRoute) []keyMatcher {
+	var ms []keyMatcher
+	for _, m := range rt.Match {
+		ms = append(ms, keyMatcher{m.Name, "=", m.Val})
+	}
+	for _, m := range rt.MatchRE {
+		// a match_re value is a compiled config.Regexp; the matcher's value is its anchored text
+		ms = append(ms, keyMatcher{m.Name, "=~", "^(?:" + m.Val + ")$"})
+	}
+	ms = append(ms, rt.Matchers...)
+	sort.SliceStable(ms, func(i, j int) bool {
+		a, b := ms[i], ms[j]
+		if a.Name != b.Name {
+			return a.Name < b.Name
+		}
+		if a.Val != b.Val {
+			return a.Val < b.Val
+		}
+		return opRank[a.Op] < opRank[b.Op]
+	})
+	return ms
+}
+
+func refRouteKeys(routes []keyRoute) []string {
+	keys := []string{"{}"} // the root has no matchers
+	own := make([]string, len(routes))
+	for i, rt := range routes {
+		parts := []string{}
+		for _, m := range refMatchersOf(rt) {
+			parts = append(parts, m.Name+m.Op+`"`+m.Val+`"`)
+		}
+		pre := "{}"
+		if rt.Parent >= 0 {
+			pre = own[rt.Parent]
+		}
+		own[i] = pre + "/{" + strings.Join(parts, ",") + "}"
+	}
+	// walk order = pre-order; the generator emits routes in that order already
+	return append(keys, own...)
+}
+
+// genKeyCaseRef: routes (one or two levels) whose matchers deliberately put SEVERAL matchers on the same label, of
+// different kinds and with values whose alphabetical order is the opposite of the order of their kinds, written in a
+// random order; plus deprecated match / match_re maps. Values avoid quote, backslash and newline (no escaping in keys).
+func genKeyCaseRef(r *vh.Rand) keyCase {
+	names := []string{"job", "sev", "team", "env"}
+	ops := []string{"=", "!=", "=~", "!~"}
+	vals := []string{"a", "b", "c", "critical|page", "page-test", "a|b", "b|c", "pr.*", "x y", "zz", "0"}
+	var routes []keyRoute
+	mk := func(parent int) keyRoute {
+		rt := keyRoute{Parent: parent}
+		used := map[string]bool{}
+		if r.Chance(1, 3) {
+			nm := vh.Pick(r, names)
+			used[nm] = true
+			rt.Match = append(rt.Match, keyMatcher{nm, "=", vh.Pick(r, vals[:3])})
+		}
+		if r.Chance(1, 3) {
+			nm := vh.Pick(r, names)
+			if !used[nm] {
+				rt.MatchRE = append(rt.MatchRE, keyMatcher{nm, "=~", vh.Pick(r, []string{"a|b", "pr.*", "b|c"})})
+			}
+		}
+		// 2-4 matchers on one label: every pair of kinds, value order against kind order in about half of the pairs
+		nm := vh.Pick(r, names)
+		k := r.Range(2, 4)
+		seen := map[string]bool{}
+		for len(rt.Matchers) < k {
+			m := keyMatcher{nm, vh.Pick(r, ops), vh.Pick(r, vals)}
+			if id := m.Op + m.Val; !seen[id] {
+				seen[id] = true
+				rt.Matchers = append(rt.Matchers, m)
+			}
+		}
+		if r.Chance(1, 2) {
+			rt.Matchers = append(rt.Matchers, keyMatcher{vh.Pick(r, names), vh.Pick(r, ops), vh.Pick(r, vals)})
+		}
+		vh.Shuffle(r, rt.Matchers)
+		return rt
+	}
+	n := r.Range(1, 3)
+	for i := 0; i < n; i++ {
+		routes = append(routes, mk(-1))
+		top := len(routes) - 1
+		if r.Chance(1, 3) {
+			routes = append(routes, mk(top))
+		}
+	}
+	// the text
+	var b strings.Builder
+	b.WriteString("route:\n  receiver: default\n  routes:\n")
+	var emit func(i int, indent string)
+	emit = func(i int, indent string) {
+		rt := routes[i]
+		fmt.Fprintf(&b, "%s- receiver: default\n", indent)
+		in := indent + "  "
+		if len(rt.Match) > 0 {
+			fmt.Fprintf(&b, "%smatch:\n", in)
+			for _, m := range rt.Match {
+				fmt.Fprintf(&b, "%s  %s: %q\n", in, m.Name, m.Val)
+			}
+		}
+		if len(rt.MatchRE) > 0 {
+			fmt.Fprintf(&b, "%smatch_re:\n", in)
+			for _, m := range rt.MatchRE {
+				fmt.Fprintf(&b, "%s  %s: %q\n", in, m.Name, m.Val)
+			}
+		}
+		fmt.Fprintf(&b, "%smatchers:\n", in)
+		for _, m := range rt.Matchers {
+			fmt.Fprintf(&b, "%s- '%s%s\"%s\"'\n", in, m.Name, m.Op, m.Val)
+		}
+		first := true
+		for j := range routes {
+			if routes[j].Parent == i {
+				if first {
+					fmt.Fprintf(&b, "%sroutes:\n", in)
+					first = false
+				}
+				emit(j, in)
+			}
+		}
+	}
+	for i := range routes {
+		if routes[i].Parent < 0 {
+			emit(i, "  ")
+		}
+	}
+	b.WriteString("receivers:\n- name: default\n")
+	return keyCase{YAML: b.String(), Loads: 3, Routes: routes}
 }
 
 func genKeyCase(r *vh.Rand) keyCase {
@@ -93,7 +250,39 @@ func runKeyCase(c keyCase) (ok bool, what string, nroutes int) {
 			return false, fmt.Sprintf("load %d of the same configuration text computed different route keys (so the same alerts get different group keys / notification-log keys after a restart or on another cluster member): first %q, now %q", i+1, first, again), len(first)
 		}
 	}
-	// the key lists its matchers in a canonical order: independent of the order they are written in
-	_ = sort.Strings
+	// the keys are the ones the property defines, computed by the harness from the matchers as written
+	if c.Routes != nil {
+		want := refRouteKeys(c.Routes)
+		if strings.Join(first, "\n") != strings.Join(want, "\n") {
+			return false, fmt.Sprintf("the route keys (prefix of every group key, notification-log key and marker key under the route) are not the canonical function of the matchers along the path: got %q, reference (matchers ordered by label name, value, kind) %q", first, want), len(first)
+		}
+	}
 	return true, "", len(first)
+}
+
+// coqKeyCases renders, per route of a reference case, the matchers as written and the matcher list of the route
+// dispatch.NewRoute built, as terms of Run/C06KRun.v.
+func coqKeyCases(c keyCase) []string {
+	if c.Routes == nil {
+		return nil
+	}
+	conf, err := config.Load(c.YAML)
+	if err != nil {
+		return nil
+	}
+	var real []*dispatch.Route
+	dispatch.NewRoute(conf.Route, nil).Walk(func(rt *dispatch.Route) { real = append(real, rt) })
+	if len(real) != len(c.Routes)+1 {
+		return nil
+	}
+	kind := map[string]string{"=": "MEq", "!=": "MNeq", "=~": "MRe", "!~": "MNre"}
+	kvs := func(ms []keyMatcher) string {
+		return vh.ListOf(ms, func(m keyMatcher) string { return vh.Pair(vh.Str(m.Name), vh.Str(m.Val)) })
+	}
+	var out []string
+	for i, rt := range c.Routes {
+		written := vh.ListOf(rt.Matchers, func(m keyMatcher) string { return vh.App("mkM", kind[m.Op], vh.Str(m.Name), vh.Str(m.Val)) })
+		out = append(out, fmt.Sprintf("mkKC %s %s %s %s", kvs(rt.Match), kvs(rt.MatchRE), written, vhm.Matchers(real[i+1].Matchers)))
+	}
+	return out
 }
